@@ -1,13 +1,183 @@
 (** C11 -- coalescing queue: first-insertion order, exact duplicate counts, no
-    loss at close.  Only theorem statements, each closed by [exact] of a lemma
-    proved in Coalesce/QueueProofs.v, with [Print Assumptions] beneath. *)
-From Gnmi Require Import Base.Prelude Base.Lts Coalesce.QueueModel Coalesce.QueueLts Coalesce.QueueProofs.
+    loss at close, refusal after close, no lost wake-up.
+
+    The statements are over the transition system of Coalesce/QueueLts.v
+    (any number of producers, one consumer, Close, cancellation; atomic steps
+    = the critical sections and channel operations of coalesce.go) and hold in
+    every state reachable by any schedule ([lreach]).  [lin (l_hist s)] is the
+    sequence of critical sections in the order they happened; [npend i h] is
+    the number of insertions of [i] since its last delivery, [fpos i h] the
+    position of the first of them.  Only statements here, each closed by
+    [exact] of a lemma of Coalesce/QueueProofs.v. *)
+From Coq Require Import Sorting.Sorted.
+From Gnmi Require Import Base.Prelude Base.Lts Coalesce.QueueModel Coalesce.QueueLts
+  Coalesce.QueueCheck Coalesce.QueueProofs.
 Open Scope N_scope.
 
+(** Refinement to the abstract coalescing queue: the critical sections are a
+    run of it (each insert reports "new" iff the item is not pending, each pop
+    is its head with its count) and the state abstracts to its state. *)
+Theorem C11_refinement :
+  forall s, lreach s -> aq_replay (lin (l_hist s)) = Some (q_abs (l_q s)).
+Proof. exact refinement. Qed.
+Print Assumptions C11_refinement.
+
+(** The queue holds exactly the items with an undelivered insertion, once
+    each, in the order of their first undelivered insertion. *)
+Theorem C11_fifo_first_insertion :
+  forall s, lreach s ->
+    let h := lin (l_hist s) in
+    NoDup (q_queue (l_q s)) /\
+    (forall i, In i (q_queue (l_q s)) <-> fpos i h <> None) /\
+    StronglySorted lt (map (pos h) (q_queue (l_q s))).
+Proof. exact fifo_first_insertion. Qed.
+Print Assumptions C11_fifo_first_insertion.
+
+(** Next delivers the pending item whose first undelivered insertion is the
+    oldest, together with exactly the number of further insertions since. *)
+Theorem C11_next_delivers_first :
+  forall s i d q',
+    lreach s -> l_cp s = CIdle \/ l_cp s = CTry ->
+    locked_next (l_q s) = Some (i, d, q') ->
+    let h := lin (l_hist s) in
+    (exists s' pre, lstep s LC = Some s' /\ l_cp s' = CIdle /\ l_q s' = q' /\
+                    l_hist s' = ERetNext (NItem i d) :: EPop i d :: pre /\
+                    lin (l_hist s') = LPop i d :: h) /\
+    fpos i h <> None /\
+    (forall j, fpos j h <> None -> (pos h i <= pos h j)%nat) /\
+    npend i h = 1 + d.
+Proof. exact next_delivers_first. Qed.
+Print Assumptions C11_next_delivers_first.
+
+(** Duplicate counts are exact. *)
+Theorem C11_dup_exact :
+  forall s, lreach s ->
+    let h := lin (l_hist s) in
+    (forall i c, cget i (q_counts (l_q s)) = Some c -> npend i h = 1 + c) /\
+    (forall i, ~ In i (q_queue (l_q s)) -> npend i h = 0).
+Proof. exact dup_exact. Qed.
+Print Assumptions C11_dup_exact.
+
+(** Insert reports "new" exactly when the item is not pending. *)
+Theorem C11_insert_reports_new :
+  forall s n i, lreach s -> l_pp s n = PChecked i ->
+    exists s', lstep s (LP n) = Some s' /\
+               l_pp s' n = PInserted i (negb (aq_mem i (q_abs (l_q s)))) /\
+               q_abs (l_q s') = fst (aq_insert i (q_abs (l_q s))) /\
+               l_hist s' = EIns n i (negb (aq_mem i (q_abs (l_q s)))) :: l_hist s.
+Proof. exact insert_reports_new. Qed.
+Print Assumptions C11_insert_reports_new.
+
+(** Conservation: sum of 1+dup over deliveries + sum of 1+dup over pending
+    items = number of locked inserts, in every state of every schedule. *)
+Theorem C11_conservation :
+  forall s, lreach s ->
+    weight (delivered (lin (l_hist s))) + weight (q_abs (l_q s)) = count_ins (lin (l_hist s)).
+Proof. exact conservation. Qed.
+Print Assumptions C11_conservation.
+
+(** No lost wake-up (enabledness): a consumer at the select with an item
+    pending can take the token case, or a producer stands between its insert
+    and its token send and its next step -- always enabled -- makes it so. *)
+Theorem C11_no_lost_wakeup :
+  forall s, lreach s -> l_cp s = CWait -> q_queue (l_q s) <> [] ->
+    enabled lstep s (LSel STok) \/
+    exists n i s', l_pp s n = PInserted i true /\ lstep s (LP n) = Some s' /\
+                   l_cp s' = CWait /\ enabled lstep s' (LSel STok).
+Proof. exact no_lost_wakeup. Qed.
+Print Assumptions C11_no_lost_wakeup.
+
+(** A consumer that cannot move is entitled to wait. *)
+Theorem C11_blocked_justified :
+  forall s, lreach s -> l_cp s = CWait -> (forall b, lstep s (LSel b) = None) ->
+    q_closed (l_q s) = false /\ l_cancelled s = false /\
+    (q_queue (l_q s) = [] \/ exists n i, l_pp s n = PInserted i true).
+Proof. exact blocked_justified. Qed.
+Print Assumptions C11_blocked_justified.
+
+(** Told "closed" only when drained: the step that reports "closed" finds the
+    queue empty after Close, and every locked insert so far -- so every Insert
+    that returned before Close -- has been delivered, duplicates included. *)
+Theorem C11_drain_before_closed :
+  forall s l s' pre,
+    lreach s -> lstep s l = Some s' -> l_hist s' = ERetNext NClosed :: pre ->
+    List.length (l_hist s') = S (List.length (l_hist s)) ->
+    l = LC /\ l_cp s = CLen /\ In EClose (l_hist s) /\
+    q_queue (l_q s') = [] /\
+    (forall i, npend i (lin (l_hist s')) = 0) /\
+    weight (delivered (lin (l_hist s'))) = count_ins (lin (l_hist s')).
+Proof. exact drain_before_closed. Qed.
+Print Assumptions C11_drain_before_closed.
+
+(** Insertions after close are refused, for ever. *)
 Theorem C11_insert_after_close_refused :
-  forall s n i s',
-    q_closed (l_q s) = true -> lstep s (LCall n i) = Some s' ->
-    l_q s' = l_q s /\ l_pp s' n = PIdle /\
-    l_hist s' = ERetIns n i IClosed :: ECallIns n i :: l_hist s.
-Proof. exact insert_after_close_refused. Qed.
+  forall s0 s n i s',
+    q_closed (l_q s0) = true -> reachable_from lstep s0 s -> lstep s (LCall n i) = Some s' ->
+    l_q s' = l_q s /\ l_hist s' = ERetIns n i IClosed :: ECallIns n i :: l_hist s.
+Proof. exact insert_after_close_refused_later. Qed.
 Print Assumptions C11_insert_after_close_refused.
+
+(** ... and an open queue does not refuse. *)
+Theorem C11_insert_open_accepted :
+  forall s n i s', q_closed (l_q s) = false -> lstep s (LCall n i) = Some s' ->
+    l_pp s' n = PChecked i /\ l_hist s' = ECallIns n i :: l_hist s.
+Proof. exact insert_open_accepted. Qed.
+Print Assumptions C11_insert_open_accepted.
+
+(** Close and cancellation wake a waiting consumer (their select case is
+    enabled) and stay in force whatever else happens. *)
+Theorem C11_close_wakes :
+  forall s, l_cp s = CWait -> q_closed (l_q s) = true ->
+    exists s', lstep s (LSel SClosed) = Some s' /\ l_cp s' = CLen.
+Proof. exact close_wakes. Qed.
+Print Assumptions C11_close_wakes.
+
+Theorem C11_cancel_wakes :
+  forall s, l_cp s = CWait -> l_cancelled s = true ->
+    exists s', lstep s (LSel SCtx) = Some s' /\ l_cp s' = CIdle /\
+               l_hist s' = ERetNext NCtx :: l_hist s.
+Proof. exact cancel_wakes. Qed.
+Print Assumptions C11_cancel_wakes.
+
+Theorem C11_closed_forever :
+  forall s s', reachable_from lstep s s' -> q_closed (l_q s) = true -> q_closed (l_q s') = true.
+Proof. exact closed_forever. Qed.
+Print Assumptions C11_closed_forever.
+
+Theorem C11_cancelled_forever :
+  forall s s', reachable_from lstep s s' -> l_cancelled s = true -> l_cancelled s' = true.
+Proof. exact cancelled_forever. Qed.
+Print Assumptions C11_cancelled_forever.
+
+(** The waiting consumer's state is changed by nobody else (so an enabled
+    wake-up stays enabled until it is taken) . *)
+Theorem C11_consumer_pc_stable :
+  forall s l s', lstep s l = Some s' -> l <> LC -> (forall b, l <> LSel b) -> l_cp s' = l_cp s.
+Proof. exact cp_other_step. Qed.
+Print Assumptions C11_consumer_pc_stable.
+
+(** An Insert overlapping Close can be accepted after the consumer was told
+    "closed" (outside the property as worded; documented). *)
+Theorem C11_insert_close_overlap_example :
+  exists s, run lstep l_init sch_overlap = Some s /\
+            l_hist s = [ERetIns 0 7 (IOk true); EIns 0 7 true; ERetNext NClosed; EClose;
+                        ECallNext; ECallIns 0 7] /\
+            q_queue (l_q s) = [7] /\ l_cp s = CIdle.
+Proof. exact insert_close_overlap_example. Qed.
+Print Assumptions C11_insert_close_overlap_example.
+
+(** Soundness of the executable specification used on the implementation's
+    observations (mode E): an accepted case is a run of the abstract queue and
+    satisfies the history-level property. *)
+Theorem C11_K_seq_sound :
+  forall l, check_case (CSeq l) = [] ->
+    exists q, aq_replay (obs_lin l []) = Some q /\ hist_ok (obs_lin l []) q.
+Proof. exact K_seq_check_sound. Qed.
+Print Assumptions C11_K_seq_sound.
+
+(** The abstract queue meets the history-level property (used by all of the
+    above): pending = undelivered, counts exact, order = first insertion. *)
+Theorem C11_abstract_queue_meets_history_spec :
+  forall h q, aq_replay h = Some q -> hist_ok h q.
+Proof. exact aq_replay_hist_ok. Qed.
+Print Assumptions C11_abstract_queue_meets_history_spec.
